@@ -121,7 +121,7 @@ inline double gen_di(Rng& r) {
     case 3: d = 9007199254740991.0; break;
     case 4: d = ldexp(1.0, (int)r.below(120)); break;
     case 5: d = (double)(r.next() >> 11); break;               // < 2^53, exact
-    case 6: d = ldexp((double)(r.next() >> 20), (int)r.below(60)); break;
+    case 6: { double m = (double)(r.next() >> 20); d = ldexp(m, (int)r.below(60)); break; }   // sequenced: same values with every compiler
     default: d = (double)r.below(1000); break;
   }
   return r.coin() ? -d : d;
@@ -131,11 +131,11 @@ inline double gen_dq(Rng& r) {
   switch (r.below(7)) {
     case 0: d = 0.5; break;
     case 1: d = 0.25 * (double)r.below(64); break;
-    case 2: d = ldexp((double)(r.next() >> 11), -(int)r.below(90)); break;
-    case 3: d = ldexp((double)(r.next() >> 11), (int)r.below(40)); break;
+    case 2: { double m = (double)(r.next() >> 11); d = ldexp(m, -(int)r.below(90)); break; }
+    case 3: { double m = (double)(r.next() >> 11); d = ldexp(m, (int)r.below(40)); break; }
     case 4: d = (double)r.below(1000); break;
     case 5: d = ldexp(1.0, (int)r.below(80) - 40); break;
-    default: d = ldexp((double)r.below(100000), -(int)r.below(6)); break;
+    default: { double m = (double)r.below(100000); d = ldexp(m, -(int)r.below(6)); break; }
   }
   return r.coin() ? -d : d;
 }
@@ -480,6 +480,7 @@ inline void on_signal(int sig) {
 inline int run(const Test* T, int n, int argc, char** argv, const char* tuple) {
   uint64_t seed = argc > 1 ? strtoull(argv[1], 0, 10) : 1; int K = argc > 2 ? atoi(argv[2]) : 10;
   signal(SIGABRT, on_signal); signal(SIGSEGV, on_signal); signal(SIGFPE, on_signal); signal(SIGBUS, on_signal);
+  const bool trace = getenv("CXXGEN_TRACE") != 0;
   long evals = 0, div0 = 0, dom = 0, amb = 0, fnd = 0, bad = 0, badf = 0;
   for (int i = 0; i < n; i++) {
     Ctx C(T[i].pf, T[i].pg, T[i].ph); cur = &T[i]; cur_ctx = &C; long fb = 0; n_reported_fn = 0;
@@ -489,6 +490,7 @@ inline int run(const Test* T, int n, int argc, char** argv, const char* tuple) {
       int rc;
       try { rc = T[i].fn(C); }
       catch (std::exception& e) { in_test = 0; report("exception", e.what(), "none"); rc = BAD; }
+      if (trace && rc != OK) printf("TRACE func=%d tuple=%d rc=%d\n", T[i].id, k, rc);
       if (rc == SKIP_DIV0) div0++; else if (rc == SKIP_DOM) dom++; else if (rc == SKIP_AMBIG) amb++; else if (rc == SKIP_FINDING) fnd++; else { evals++; if (rc != OK) { bad++; fb++; } }
     }
     if (fb) { badf++; printf("BADFUNC func=%d mismatches=%ld\n", T[i].id, fb); }
